@@ -49,6 +49,8 @@ class ExtMixin(object):
             return LoggerV()
         if name.endswith("Exception") or name.endswith("Error"):
             return ExcV(fn, args)
+        if short in ("configparser.ExtendedInterpolation", "configparser.BasicInterpolation"):
+            return Opaque(("extcall", name, (), ()))
         if base[0] in ("scipy", "numpy", "np"):
             kw = tuple(sorted((k, v.key()) for k, v in kwargs.items()))
             self.log_event(("extcall", name))
@@ -451,6 +453,36 @@ class ExtMixin(object):
 
     def x_collections_OrderedDict(self, args, kwargs, node, env):
         return self.x_dict(args, kwargs, node, env)
+
+    def x_itertools_chain_from_iterable(self, args, kwargs, node, env):
+        outer = self.as_iterable(args[0], node)
+        if not isinstance(outer, ListV):
+            self.err(node, "chain.from_iterable over a symbolic sequence")
+        out = []
+        for sub in outer.items:
+            subl = self.as_iterable(sub, node)
+            if not isinstance(subl, ListV):
+                self.err(node, "chain.from_iterable over a symbolic inner sequence")
+            out.extend(subl.items)
+        return ListV(out, "list")
+
+    def x_itertools_chain(self, args, kwargs, node, env):
+        return self.x_itertools_chain_from_iterable([ListV(list(args), "list")], kwargs, node, env)
+
+    def x_itertools_permutations(self, args, kwargs, node, env):
+        import itertools as _it
+        seq = self.as_iterable(args[0], node)
+        r = int(args[1].const()) if len(args) > 1 else None
+        if not isinstance(seq, ListV):
+            self.err(node, "permutations of a symbolic sequence")
+        return ListV([ListV(list(p), "tuple") for p in _it.permutations(seq.items, r)], "list")
+
+    def x_itertools_combinations(self, args, kwargs, node, env):
+        import itertools as _it
+        seq = self.as_iterable(args[0], node)
+        if not isinstance(seq, ListV):
+            self.err(node, "combinations of a symbolic sequence")
+        return ListV([ListV(list(p), "tuple") for p in _it.combinations(seq.items, int(args[1].const()))], "list")
 
     def x_functools_reduce(self, args, kwargs, node, env):
         fn, seq = args[0], self.as_iterable(args[1], node)
